@@ -56,11 +56,17 @@ func checkDeterminism(m *Mon, r *Run, k int, child bool) {
 	m.run = r
 	sc := &StepCtx{Idx: len(h.Steps) - 1, Step: &Step{Kind: "replay", Desc: "replay differential"}, Res: &StepResult{OK: true}, run: r}
 	for i := 0; i < k; i++ {
+		if expired() {
+			return // the watchdog has fired: steps are no-ops from now on, nothing can be compared
+		}
 		m.eval("C20")
 		d, hp := replayDigests(h)
 		if hp != "" {
 			m.stats.Hits["harness/panic"]++
 			continue
+		}
+		if expired() {
+			return // the replica was cut short by the watchdog: inconclusive, not a divergence
 		}
 		m.hit("C20", "replay-identical", fmt.Sprintf("steps%d", minInt(len(d)/50, 5)))
 		if at := firstDiff(r.digests, d); at >= 0 {
@@ -73,11 +79,14 @@ func checkDeterminism(m *Mon, r *Run, k int, child bool) {
 			return
 		}
 	}
-	if child {
+	if child && !expired() {
 		m.eval("C20")
 		d, err := childDigests(h)
 		if err != nil {
 			m.stats.Hits["harness/child-error"]++
+			return
+		}
+		if expired() {
 			return
 		}
 		m.hit("C20", "replay-identical-across-processes", "")
